@@ -209,6 +209,14 @@ def _check_demux(ctx, prog, b, owner, exact, forbidden, wildcard_keep, session_a
         none_arm = K.skip_false_edges(b, dep.switch_target(b, sw, 0))
         if not g.dominates(none_arm, b2):
             probs.append("the wildcard lookup is not confined to the miss arm of the exact lookup")
+        # ... and it is always made there: no way out of the miss arm that skips the wildcard binding
+        elif not g.all_paths_through(none_arm, g.returns, [b2]):
+            ret_path = g.path(none_arm, g.returns[0], removed=[b2]) if g.returns else None
+            where = ""
+            for x in (ret_path or []):
+                if b.term(x)[0] == "switch":
+                    where = " (decided at %s)" % K.loc_of_block(b, x)
+            probs.append("when the exact binding is missing, %s::demux can return without consulting the wildcard binding (0.0.0.0)%s: the application that bound the wildcard address does not get the datagram" % (owner, where))
     (ctx.bad if probs else ctx.ok)("U-LOOKUP", key, F.call_loc(t1), "; ".join(probs) if probs else
         "exact key from the destination fields first; wildcard (CURRENT_NETWORK, same port/protocol) only on its miss arm")
 
